@@ -392,4 +392,10 @@ def hoistOK (e : Expr) : Bool :=
   | [b] => b
   | _ => false
 
+/-! ### PROPOSAL (hooks/C10-fix8, not applied in /repo): Prepare refuses what it cannot hoist faithfully.
+The rewriter keeps hoisting (Neo4j 4.x rejects `r:TYPE` in WHERE), but returns an error unless `hoistOK` holds: every
+matcher it would hoist is any-of, sits in a purely conjunctive un-negated position, and there is at most one. -/
+def prepareGuarded (e : Expr) : Option (List String × Option Expr) :=
+  if hoistOK e then prepare e else none
+
 end Dawgs.C10
